@@ -31,6 +31,8 @@ pub struct Names {
     next_id: usize,
     next_val: usize,
     pub ascii_only: bool,
+    /// sometimes produce very long option names (rendering properties)
+    pub long_names: bool,
 }
 
 impl Names {
@@ -67,6 +69,16 @@ impl Names {
         None
     }
     pub fn long(&mut self, u: &mut Un) -> String {
+        if self.long_names && u.chance(50) {
+            let n = 20 + u.below(45);
+            let mut l = format!("long{}", self.longs.len());
+            while l.len() < n {
+                l.push_str(["-option", "-name", "-x", "-ünï"][l.len() % 4]);
+            }
+            if self.longs.insert(l.clone()) {
+                return l;
+            }
+        }
         let start = u.below(LONGS.len());
         for k in 0..LONGS.len() {
             let l = LONGS[(start + k) % LONGS.len()];
